@@ -44,8 +44,6 @@ Theorem check_iff_contract_click_through_rate_input_check : forall e, wf sig_cli
 Proof. exact ShapesP.check_iff_contract_click_through_rate_input_check. Qed.
 Theorem check_iff_contract_confusion_matrix_param_check : forall e, wf sig_confusion_matrix_param_check e -> (accepts chk_confusion_matrix_param_check e = true <-> contract_confusion_matrix_param_check e).
 Proof. exact ShapesP.check_iff_contract_confusion_matrix_param_check. Qed.
-Theorem check_iff_contract_confusion_matrix_update_input_check : forall e, wf sig_confusion_matrix_update_input_check e -> (accepts chk_confusion_matrix_update_input_check e = true <-> contract_confusion_matrix_update_input_check e).
-Proof. exact ShapesP.check_iff_contract_confusion_matrix_update_input_check. Qed.
 Theorem check_iff_contract_f1_score_param_check : forall e, wf sig_f1_score_param_check e -> (accepts chk_f1_score_param_check e = true <-> contract_f1_score_param_check e).
 Proof. exact ShapesP.check_iff_contract_f1_score_param_check. Qed.
 Theorem check_iff_contract_f1_score_update_input_check : forall e, wf sig_f1_score_update_input_check e -> (accepts chk_f1_score_update_input_check e = true <-> contract_f1_score_update_input_check e).
@@ -166,6 +164,12 @@ Theorem check_iff_contract_binned_precision_recall_curve_param_check_refuted :
   (forall e, wf sig_binned_precision_recall_curve_param_check e -> accepts chk_binned_precision_recall_curve_param_check e = contractb_binned_precision_recall_curve_param_check e)
   \/ (exists e, wf sig_binned_precision_recall_curve_param_check e /\ accepts chk_binned_precision_recall_curve_param_check e <> contractb_binned_precision_recall_curve_param_check e).
 Proof. exact ShapesRefutedP.check_iff_contract_binned_precision_recall_curve_param_check_refuted_or_fixed. Qed.
+Theorem contract_implies_accepts_confusion_matrix_update_input_check_partial : forall e, wf sig_confusion_matrix_update_input_check e -> contract_confusion_matrix_update_input_check e -> accepts chk_confusion_matrix_update_input_check e = true.
+Proof. exact ShapesRefutedP.contract_implies_accepts_confusion_matrix_update_input_check. Qed.
+Theorem check_iff_contract_confusion_matrix_update_input_check_refuted :
+  (forall e, wf sig_confusion_matrix_update_input_check e -> accepts chk_confusion_matrix_update_input_check e = contractb_confusion_matrix_update_input_check e)
+  \/ (exists e, wf sig_confusion_matrix_update_input_check e /\ accepts chk_confusion_matrix_update_input_check e <> contractb_confusion_matrix_update_input_check e).
+Proof. exact ShapesRefutedP.check_iff_contract_confusion_matrix_update_input_check_refuted_or_fixed. Qed.
 Theorem contract_implies_accepts_mean_squared_error_update_input_check_partial : forall e, wf sig_mean_squared_error_update_input_check e -> contract_mean_squared_error_update_input_check e -> accepts chk_mean_squared_error_update_input_check e = true.
 Proof. exact ShapesRefutedP.contract_implies_accepts_mean_squared_error_update_input_check. Qed.
 Theorem check_iff_contract_mean_squared_error_update_input_check_refuted :
@@ -228,6 +232,7 @@ Definition refuted_now : list (string * bool) := [
   ("_binary_binned_auroc_param_check", refuted_now_binary_binned_auroc_param_check);
   ("_binary_binned_auroc_update_input_check", refuted_now_binary_binned_auroc_update_input_check);
   ("_binned_precision_recall_curve_param_check", refuted_now_binned_precision_recall_curve_param_check);
+  ("_confusion_matrix_update_input_check", refuted_now_confusion_matrix_update_input_check);
   ("_mean_squared_error_update_input_check", refuted_now_mean_squared_error_update_input_check);
   ("_multiclass_binned_auroc_param_check", refuted_now_multiclass_binned_auroc_param_check);
   ("_multilabel_accuracy_update_input_check", refuted_now_multilabel_accuracy_update_input_check);
@@ -238,7 +243,7 @@ Definition refuted_now : list (string * bool) := [
   ("_weighted_calibration_input_check", refuted_now_weighted_calibration_input_check);
   ("_window_mean_squared_error_update_input_check", refuted_now_window_mean_squared_error_update_input_check)
 ].
-Example refuted_now_is_computable : List.length refuted_now = 16%nat.
+Example refuted_now_is_computable : List.length refuted_now = 17%nat.
 Proof. reflexivity. Qed.
 
 (* non-vacuity: the accuracy check accepts a documented call and rejects a mismatched one *)
@@ -265,7 +270,6 @@ Print Assumptions check_iff_contract_binary_recall_at_fixed_precision_update_inp
 Print Assumptions check_iff_contract_binary_recall_update_input_check.
 Print Assumptions check_iff_contract_click_through_rate_input_check.
 Print Assumptions check_iff_contract_confusion_matrix_param_check.
-Print Assumptions check_iff_contract_confusion_matrix_update_input_check.
 Print Assumptions check_iff_contract_f1_score_param_check.
 Print Assumptions check_iff_contract_f1_score_update_input_check.
 Print Assumptions check_iff_contract_frequency_input_check.
@@ -318,6 +322,8 @@ Print Assumptions contract_implies_accepts_binary_binned_auroc_update_input_chec
 Print Assumptions check_iff_contract_binary_binned_auroc_update_input_check_refuted.
 Print Assumptions contract_implies_accepts_binned_precision_recall_curve_param_check_partial.
 Print Assumptions check_iff_contract_binned_precision_recall_curve_param_check_refuted.
+Print Assumptions contract_implies_accepts_confusion_matrix_update_input_check_partial.
+Print Assumptions check_iff_contract_confusion_matrix_update_input_check_refuted.
 Print Assumptions contract_implies_accepts_mean_squared_error_update_input_check_partial.
 Print Assumptions check_iff_contract_mean_squared_error_update_input_check_refuted.
 Print Assumptions contract_implies_accepts_multiclass_binned_auroc_param_check_partial.
